@@ -903,6 +903,7 @@ func TestFoFree(t *testing.T) {
 			StatOn: true, LogOn: rng.Intn(3) == 0, Backend: []string{"ShardedMap", "SyncMap"}[rng.Intn(2)],
 			Skip: map[string]bool{}, HasCell: map[string]bool{}, Cell0: map[string]int{},
 		}
+		cfg.OfAny = cfg.Generic && ri%2 == 1
 
 		km, err := NewKeyMap(seed+int64(ri), false, nil)
 		mustNoErr(err, "keymap")
